@@ -273,6 +273,91 @@ pub fn default_config() -> Config {
     Config::default()
 }
 
+/// The configuration as a user would write it: the given Config rendered as configuration-file text
+/// (JSON is YAML) and read back by the subject's own `parse_config`, so that the configuration file
+/// reader (names of options, the three spellings of a scalar mapping, defaults) is part of every
+/// check that configures the printers.
+pub fn via_config_text(cfg: &Config) -> Config {
+    let text = config_text(cfg);
+    nitrogql_config_file::parse_config(&text).unwrap_or_else(|| crate::report::machinery(&format!("parse_config rejects the rendered configuration: {text}")))
+}
+
+pub fn config_text(cfg: &Config) -> String {
+    use nitrogql_config_file::{GenerateMode, ScalarTypeConfig};
+    use serde_json::{Map, Value as J, json};
+    let g = &cfg.generate;
+    let mut gen_ = Map::new();
+    if g.mode != GenerateMode::default() {
+    gen_.insert("mode".into(), json!(match g.mode { GenerateMode::WithLoaderTS5_0 => "with-loader-ts-5.0", GenerateMode::WithLoaderTS4_0 => "with-loader-ts-4.0", GenerateMode::StandaloneTS4_0 => "standalone-ts-4.0" }));
+    }
+    let path = |p: &Option<PathBuf>| p.as_ref().map(|p| J::String(p.to_string_lossy().to_string()));
+    for (k, v) in [("schemaOutput", path(&g.schema_output)), ("serverGraphqlOutput", path(&g.server_graphql_output)), ("resolversOutput", path(&g.resolvers_output)), ("schemaModuleSpecifier", g.schema_module_specifier.clone().map(J::String))] {
+        if let Some(v) = v {
+            gen_.insert(k.into(), v);
+        }
+    }
+    let mut scalars = Map::new();
+    let mut names: Vec<&String> = g.r#type.scalar_types.keys().collect();
+    names.sort();
+    for n in names {
+        let v = match &g.r#type.scalar_types[n] {
+            ScalarTypeConfig::Single(s) => json!(s),
+            ScalarTypeConfig::SendReceive(c) => json!({"send": c.send, "receive": c.receive}),
+            ScalarTypeConfig::Separate(c) => json!({"resolverOutput": c.resolver_output, "resolverInput": c.resolver_input, "operationOutput": c.operation_output, "operationInput": c.operation_input}),
+        };
+        scalars.insert(n.clone(), v);
+    }
+    // options at their default value are left out: the defaults are the reader's to supply
+    let mut ty = Map::new();
+    if !scalars.is_empty() {
+        ty.insert("scalarTypes".into(), J::Object(scalars));
+    }
+    if !g.r#type.allow_undefined_as_optional_input {
+        ty.insert("allowUndefinedAsOptionalInput".into(), json!(false));
+    }
+    if !ty.is_empty() {
+        gen_.insert("type".into(), J::Object(ty));
+    }
+    let mut name = Map::new();
+    let n = &g.name;
+    for (k, v) in [("operationResultTypeSuffix", &n.operation_result_type_suffix), ("variablesTypeSuffix", &n.variables_type_suffix), ("fragmentTypeSuffix", &n.fragment_type_suffix), ("queryVariableSuffix", &n.query_variable_suffix), ("mutationVariableSuffix", &n.mutation_variable_suffix), ("subscriptionVariableSuffix", &n.subscription_variable_suffix), ("fragmentVariableSuffix", &n.fragment_variable_suffix)] {
+        if let Some(v) = v {
+            name.insert(k.into(), json!(v));
+        }
+    }
+    if let Some(c) = n.capitalize_operation_names {
+        name.insert("capitalizeOperationNames".into(), json!(c));
+    }
+    if !name.is_empty() {
+        gen_.insert("name".into(), J::Object(name));
+    }
+    let mut export = Map::new();
+    if !g.export.default_export_for_operation {
+        export.insert("defaultExportForOperation".into(), json!(false));
+    }
+    if g.export.operation_result_type {
+        export.insert("operationResultType".into(), json!(true));
+    }
+    if g.export.variables_type {
+        export.insert("variablesType".into(), json!(true));
+    }
+    if !export.is_empty() {
+        gen_.insert("export".into(), J::Object(export));
+    }
+    if g.emit_schema_runtime {
+        gen_.insert("emitSchemaRuntime".into(), json!(true));
+    }
+    let mut top = Map::new();
+    if !cfg.schema.is_empty() {
+        top.insert("schema".into(), json!(cfg.schema));
+    }
+    if !cfg.operations.is_empty() {
+        top.insert("documents".into(), json!(cfg.operations));
+    }
+    top.insert("extensions".into(), json!({"nitrogql": {"plugins": cfg.plugins, "generate": gen_}}));
+    serde_json::to_string_pretty(&J::Object(top)).unwrap()
+}
+
 /// File table in the shape print_positioned_error wants.
 pub fn file_table(schema: &[String], ops: &[(PathBuf, String)]) -> Vec<(PathBuf, String, ())> {
     let mut v = vec![];
